@@ -930,33 +930,8 @@ def check_typed(a):
     return None
 
 
-def covered_typed(a, msg):
-    """C15-standard-node-wrapper: `StandardNode.bind` hands a value that did NOT convert (lenient config: the raw string
-    stays, or "" for an empty element) to the bytes wrapper of xs:hexBinary / xs:base64Binary -> TypeError
-    ('string argument without an encoding').  Exactly: the anyType field, one of these two datatypes behind xsi:type,
-    fail_on_converter_warnings off, a value the codec rejects, and that TypeError."""
-    import base64
-    import binascii
-
-    if a.get("field") != "anyf" or not a.get("anyf") or not a["entry"].startswith("xml"):
-        return None
-    tname, value = a["anyf"]
-    if tname not in ("hexBinary", "base64Binary") or "TypeError escaped" not in msg or "string argument without an encoding" not in msg:
-        return None
-    if value == "":
-        return "C15-standard-node-wrapper"  # the empty element: `obj = ""` goes to the wrapper whatever the config
-    if a.get("strict"):
-        return None  # with fail_on_converter_warnings a value that does not convert is a ParserError before the wrapper
-    try:
-        v = value.strip() if False else value
-        (binascii.unhexlify if tname == "hexBinary" else (lambda x: base64.b64decode(x, validate=True)))(v)
-    except ValueError:  # binascii.Error is a ValueError: the codec rejects the value
-        return "C15-standard-node-wrapper"
-    return None
-
-
 ORACLES = [
-    Oracle("c15.typed_values", gen_oracle_typed, check_typed, covered=covered_typed),
+    Oracle("c15.typed_values", gen_oracle_typed, check_typed),
     Oracle("c15.tree", gen_oracle_tree, check_tree, from_ops=("bind.parse_u",)),
     Oracle("c15.xml_bytes", gen_oracle_xml, check_xml_bytes, covered=covered_xml,
            from_ops=("fault.document", "fault.document.lxml"), adapt=adapt_xml),
@@ -1014,24 +989,7 @@ def _xml_version_finding():
     return isinstance(r, Doc), "accepted: " + repr(r)[:60]
 
 
-def _standard_wrapper_finding():
-    import warnings
-
-    import c15_typed as T
-
-    try:
-        with warnings.catch_warnings():
-            warnings.simplefilter("ignore")
-            T.run({"entry": "xml-native", "values": {}, "anyf": ["hexBinary", "zz"], "strict": False})
-    except TypeError as e:
-        return "without an encoding" in str(e), f"TypeError: {e}"
-    except Exception as e:  # noqa: BLE001
-        return False, f"now {type(e).__name__}"
-    return False, "no exception"
-
-
 FINDINGS = {
-    "C15-standard-node-wrapper": _standard_wrapper_finding,
     "C15-xml-version-number": _xml_version_finding,
 }
 
